@@ -207,6 +207,7 @@ func knownLz4(prop string, spy *spyLz4) bool {
 	}
 	return true
 }
+
 // lz4Diag describes, for a failure message, what the reference decoder makes of the compressed body of enc.
 func lz4Diag(comp compKind, enc []byte) string {
 	if comp != compLz4 || len(enc) < 13 || enc[1]&1 == 0 {
@@ -224,7 +225,6 @@ func lz4Diag(comp compKind, enc []byte) string {
 	}
 	return fmt.Sprintf(" [lz4 diag: declared uncompressed length %d, compressed %d, reference decoder: %d bytes, err=%v]", declared, len(body)-4, len(out), err)
 }
-
 
 // diffFrames is canon.Diff on frames with one more wire-unrepresentable distinction removed: Body.TracingId of a
 // request frame ("Only valid for response frames, ignored otherwise").
